@@ -1083,4 +1083,108 @@ theorem freqFirst_imp_grammar (t : Str) (h : rfcRecurFreqFirst t = true) : rfcRe
   · next ns hns => simp only [Bool.and_eq_true] at h; exact h.1
   · cases h
 
+/-! ## the sorted rule is a rearrangement; decidable checkers for concrete rules -/
+
+theorem mem_canon_iff {r : Rule} (hinv : Inv upper r) (kv : Str × List PartVal) : kv ∈ recurCanon r ↔ kv ∈ r := by
+  constructor
+  · exact mem_sortedItems hinv
+  · intro h
+    obtain ⟨k, v⟩ := kv
+    have hk : k ∈ odKeys r := List.mem_map.2 ⟨(k, v), h, rfl⟩
+    show (k, v) ∈ cdSortedItems upper r Gen.recurCanonicalOrder
+    rw [sortedItems_eq _ hinv]
+    exact List.mem_filterMap.2 ⟨k, (mem_canonsort _ _ k).2 hk, by rw [odGet_of_mem r hinv.1 k v h]; rfl⟩
+
+theorem nodup_of_keys {V : Type} {s : Store V} (h : (odKeys s).Nodup) : s.Nodup := by
+  induction s with
+  | nil => simp
+  | cons p r ih =>
+    simp only [odKeys_cons, List.nodup_cons] at h ⊢
+    exact ⟨fun hm => h.1 (List.mem_map.2 ⟨p, hm, rfl⟩), ih h.2⟩
+
+/-- `sorted_items` only rearranges the parts -/
+theorem canon_perm {r : Rule} (hinv : Inv upper r) : (recurCanon r).Perm r := by
+  show (cdSortedItems upper r Gen.recurCanonicalOrder).Perm r
+  rw [List.perm_ext_iff_of_nodup (nodup_of_keys (inv_sortedItems Gen.recurCanonicalOrder hinv).1) (nodup_of_keys hinv.1)]
+  exact mem_canon_iff hinv
+
+theorem canon_get {r : Rule} (hinv : Inv upper r) (k : Str) : odGet (recurCanon r) k = odGet r k := by
+  cases hg : odGet r k with
+  | none =>
+    rw [odGet_none] at hg ⊢
+    intro hm
+    have : k ∈ canonsort (odKeys r) Gen.recurCanonicalOrder := by
+      rw [← keys_sortedItems _ hinv]; exact hm
+    exact hg ((mem_canonsort _ _ k).1 this)
+  | some v =>
+    exact odGet_of_mem _ (inv_sortedItems Gen.recurCanonicalOrder hinv).1 k v
+      ((mem_canon_iff hinv (k, v)).2 (mem_of_odGet r k v hg))
+
+/-- for a rule whose keys are all named in the canonical order, the sorted items are computed by a
+    filter of that order (no sorting left to evaluate) -/
+theorem canon_known {r : Rule} (hinv : Inv upper r) (hall : ∀ k ∈ odKeys r, k ∈ Gen.recurCanonicalOrder) :
+    recurCanon r = (Gen.recurCanonicalOrder.filter (fun k => decide (k ∈ odKeys r))).filterMap
+      (fun k => (odGet r k).map (fun v => (k, v))) := by
+  show cdSortedItems upper r Gen.recurCanonicalOrder = _
+  rw [sortedItems_eq _ hinv, canonsort_spec' _ _ hinv.1, dedupLast_of_nodup _ order_nodup]
+  have : (odKeys r).filter (fun k => decide (k ∉ Gen.recurCanonicalOrder)) = [] := by
+    rw [List.filter_eq_nil_iff]
+    intro k hk
+    simp [hall k hk]
+  rw [this]
+  simp
+
+theorem canon_single (k : Str) (vs : List PartVal) (hk : upper k = k) : recurCanon [(k, vs)] = [(k, vs)] := by
+  have hinv : Inv upper ([(k, vs)] : Rule) := ⟨by simp [odKeys], by intro x hx; simp [odKeys] at hx; rw [hx]; exact hk⟩
+  have hp := canon_perm hinv
+  exact List.perm_singleton.1 hp
+
+/-- `to_ical` of a one-part rule is the text of that part -/
+theorem recurTo_single (k : Str) (vs : List PartVal) (hk : upper k = k) :
+    recurTo [(k, vs)] = (pairTo k vs).map (fun t => t) := by
+  unfold recurTo
+  have : recurItems [(k, vs)] = [(k, vs)] := canon_single k vs hk
+  rw [this]
+  simp only [mapRes]
+  cases pairTo k vs <;> rfl
+
+def itemOkB (kv : Str × List PartVal) : Bool :=
+  !kv.1.contains '=' && !kv.1.contains ';' && upper kv.1 == kv.1 && !kv.2.isEmpty &&
+    kv.2.all (partOk (recurTypeOf kv.1))
+
+/-- Bool form of `RecurDomain`, so that concrete rules are checked by `decide` -/
+def domainB (r : Rule) : Bool :=
+  decide ((odKeys r).Nodup) && (odKeys r).all (fun k => upper k == k) && r.all itemOkB
+
+theorem itemOk_of_check {kv : Str × List PartVal} (h : itemOkB kv = true) : ItemOk kv := by
+  simp only [itemOkB, Bool.and_eq_true, Bool.not_eq_true', beq_iff_eq, List.all_eq_true] at h
+  obtain ⟨⟨⟨⟨h1, h2⟩, h3⟩, h4⟩, h5⟩ := h
+  refine ⟨?_, ?_, h3, ?_, h5⟩
+  · intro hm; have := List.contains_iff_mem.2 hm; rw [this] at h1; cases h1
+  · intro hm; have := List.contains_iff_mem.2 hm; rw [this] at h2; cases h2
+  · intro e; rw [e] at h4; simp at h4
+
+theorem domain_of_check {r : Rule} (h : domainB r = true) : RecurDomain r := by
+  simp only [domainB, Bool.and_eq_true, decide_eq_true_eq, List.all_eq_true, beq_iff_eq] at h
+  exact ⟨⟨h.1.1, h.1.2⟩, fun kv hkv => itemOk_of_check (h.2 kv hkv)⟩
+
+def itemRfcB (kv : Str × List PartVal) : Bool :=
+  match rfcPartSpec kv.1 with
+  | some (isList, _) => (isList || kv.2.length == 1) && kv.2.all (rfcValOk kv.1)
+  | none => false
+
+def grammarB (r : Rule) : Bool := domainB r && r.all itemRfcB && rfcNamesOk (odKeys r)
+
+theorem itemRfc_of_check {kv : Str × List PartVal} (h : itemRfcB kv = true) : ItemRfc kv := by
+  unfold itemRfcB at h
+  split at h
+  · next isList g hs =>
+    simp only [Bool.and_eq_true, Bool.or_eq_true, beq_iff_eq, List.all_eq_true] at h
+    exact ⟨isList, g, hs, h.1, h.2⟩
+  · cases h
+
+theorem grammar_of_check {r : Rule} (h : grammarB r = true) : GrammarDomain r := by
+  simp only [grammarB, Bool.and_eq_true, List.all_eq_true] at h
+  exact ⟨domain_of_check h.1.1, fun kv hkv => itemRfc_of_check (h.1.2 kv hkv), h.2⟩
+
 end ICal.Recur
